@@ -282,7 +282,7 @@ theorem signedTail (prof : Profile) (P : Nat) (N y : Int) (neg : Prop) [Decidabl
 /-- the sign-fixing tail of `i128_shifted_div_mod_floor` for a negative divisor (after the D13 repair this branch is live): with
     `M = -N` and `Y = -y > 0` the result is the floor quotient `M / Y = N / y` and the remainder `-(M % Y)`, which has the sign of `y` -/
 theorem signedTailNeg (prof : Profile) (P : Nat) (N y : Int) (neg : Prop) [Decidable neg]
-    (hy : I128_MIN < y ∧ y < 0) (qh ql r : Nat)
+    (hy : I128_MIN ≤ y ∧ y < 0) (qh ql r : Nat)
     (hQ : qh * U128_MOD + ql = P / y.natAbs) (hR : r = P % y.natAbs) (hql : ql < U128_MOD)
     (hN : N = if neg then -(P : Int) else (P : Int)) :
     (if qh ≠ 0 ∨ (ql : Int) > I128_MAX then (pure none : Outcome (Option (Int × Int)))
@@ -417,7 +417,7 @@ theorem i128ShiftedDivModFloor_spec (prof : Profile) (x : Int) (p : Nat) (y : In
 /-- `i128_shifted_div_mod_floor(x, p, y)` for `y < 0` (the branch the D13 repair made live): the floor quotient of
     `x·10^p / y = (-(x·10^p)) / (-y)` and a remainder with the sign of `y` -/
 theorem i128ShiftedDivModFloor_spec_neg (prof : Profile) (x : Int) (p : Nat) (y : Int)
-    (h1 : I128_MIN < x ∧ x ≤ I128_MAX) (hp : p ≤ 38) (hy : I128_MIN < y ∧ y < 0) :
+    (h1 : I128_MIN < x ∧ x ≤ I128_MAX) (hp : p ≤ 38) (hy : I128_MIN ≤ y ∧ y < 0) :
     i128ShiftedDivModFloor prof x p y =
       .ok (if ((x * 10 ^ p).natAbs / y.natAbs : Nat) ≤ I128_MAX.toNat
         then some ((-(x * 10 ^ p)) / (-y), -((-(x * 10 ^ p)) % (-y))) else none) := by
